@@ -155,8 +155,8 @@ def ext_ffi_check(workdir, tier, seed, sh, vh):
 
 
 PROPS['C17'] = dict(
-    lean_targets=['AnonModel.Props.C17', 'AnonModel.Props.GenConstsC17'],
-    required_theorems=['C17_handle_resolution_sources_unchanged', 'C17_optional_stale_rejected', 'C17_optional_absent_iff', 'C17_optional_live_resolves', 'C17_all_wrapped', 'C17_all_out_pointers_guarded', 'C17_all_result_params_checked', 'C17_no_result_functions', 'C17_from_json_template_guarded'],
+    lean_targets=['AnonModel.Props.C17', 'AnonModel.Props.GenConstsC17', 'AnonModel.Props.C17Glue'],
+    required_theorems=['C17_override_lookup', 'C17_override_row_findable', 'C17_override_distinct', 'C17_override_order_irrelevant', 'C17_prove_list_order_irrelevant', 'C17_present_fails_iff', 'C17_handle_resolution_sources_unchanged', 'C17_optional_stale_rejected', 'C17_optional_absent_iff', 'C17_optional_live_resolves', 'C17_all_wrapped', 'C17_all_out_pointers_guarded', 'C17_all_result_params_checked', 'C17_no_result_functions', 'C17_from_json_template_guarded'],
     families=[dict(name='c17', external='ext_ffi_check')],
     default_dir='exact',
     rule="table of all exported entry points regenerated from src/ffi/** (51 today): theorems by decide. Dynamic: for every error-code entry point, each result pointer null in turn and 9 malformed argument modes (all-empty, unknown / freed / wrong-typed handles incl. handle lists, non-UTF-8 / null strings, null list members, garbage byte buffers, huge counts), each call in a forked child (abort = signal); error slot semantics; ~70 verifications (honest and attack scenarios, both formats, with revocation) decided by the native API and repeated through the C ABI; a complete issue-present-verify flow made through the C ABI and verified by both APIs (incl. a tampered copy); create_schema and seven from_json->get_json round trips byte/JSON-identical",
